@@ -80,6 +80,27 @@ Theorem C08_seed_independent : forall matches ord1 ord2,
 Proof. exact seed_independent. Qed.
 Print Assumptions C08_seed_independent.
 
+(* Histories on ONE table object: selections (rows / indices / mask, single
+   selectors and tuples) interleaved with edits of the index column (a cell by
+   position, a cell by name, the whole column).  No hidden state: whatever was
+   selected or edited before, a selection shows the three views of the table
+   whose index column is the edited column ... *)
+Theorem C08_reselect : forall matches ord t ops q,
+  let t' := set_idx t (edited (s_idx t) ops) in
+  hrun matches ord t (ops ++ [HSel q]) =
+  hrun matches ord t ops ++
+  [HViews (rows_positions matches ord t' q) (indices matches ord t' q) (mask matches ord t' q)].
+Proof. exact select_after_history. Qed.
+Print Assumptions C08_reselect.
+
+(* ... hence, with C08_refines, the rows the specification denotes on the edited column *)
+Theorem C08_reselect_spec : forall matches ord t ops s, perm_oracle ord ->
+  let t' := set_idx t (edited (s_idx t) ops) in
+  names_plainb matches (s_idx t') = true -> sel_okb t' s = true ->
+  indices matches ord (hfinal matches ord t ops) (QOne s) = sel_spec matches t' s.
+Proof. exact reselect_spec. Qed.
+Print Assumptions C08_reselect_spec.
+
 (* non-vacuity: names a=1, ab=2, c=3; pattern 10 = 'a.*' (matches a, ab), 11 = 'A|c';
    table [a; ab; a; c; ab] with x = [1;2;3;0;2]; reversing set order is a
    permutation oracle; hypotheses hold; the model computes what the spec says *)
@@ -103,3 +124,15 @@ Example C08_nonvacuous :
   mask ex_matches (@rev N) ex_table (QOne (SRegex 11%N (Some 0) 0)) = Ok [true; false; false; true; false].
 Proof. split; [exact perm_oracle_rev | vm_compute; repeat split; reflexivity]. Qed.
 Print Assumptions C08_nonvacuous.
+
+(* select 'a.*', rename row 3 (c) to ab, select again; rename the last 'a' by name to c, select again *)
+Example C08_history_nonvacuous :
+  hrun ex_matches (@rev N) ex_table
+    [HSel (QOne (SRegex 10%N None 0)); HSetCell 3 2%N; HSel (QOne (SRegex 10%N None 0));
+     HSetCellName 1%N (Some (-1)) 0 3%N; HSel (QOne (SRegex 10%N None 0)); HSetCell 9 1%N] =
+  [HViews (Ok [0; 1; 2; 4]%nat) (Ok [0; 1; 2; 4]) (Ok [true; true; true; false; true]); HDone;
+   HViews (Ok [0; 1; 2; 3; 4]%nat) (Ok [0; 1; 2; 3; 4]) (Ok [true; true; true; true; true]); HDone;
+   HViews (Ok [0; 1; 3; 4]%nat) (Ok [0; 1; 3; 4]) (Ok [true; true; false; true; true]); HFail EIndex] /\
+  edited (s_idx ex_table) [HSetCell 3 2%N; HSetCellName 1%N (Some (-1)) 0 3%N] = [1; 2; 3; 2; 2]%N.
+Proof. vm_compute. split; reflexivity. Qed.
+Print Assumptions C08_history_nonvacuous.
